@@ -2,6 +2,7 @@
    Own legs: default-initialised objects (C02/Model.v).  The component theorems are collected in
    Properties_containers.v, Properties_strings.v, Properties_algorithms.v, Properties_arith.v, Properties_wrappers.v. *)
 From Tetl Require Import Lib.Base C02.Model.
+From Tetl Require C08.Model C08.Core C02.ModelFp C02.ProofsFp.
 Local Open Scope Z_scope.
 
 (* every modelled object kind except inplace_vector reads only initialised members after default-initialisation
@@ -20,6 +21,24 @@ Theorem C02_inplace_vector_default_init_refuted :
   exists o, default_obs o = UB UninitRead /\ default_size o = UB UninitRead /\ default_obs_poisoned o <> empty_state o.
 Proof. exists InplaceVectorTrivial. repeat split; try reflexivity. vm_compute. discriminate. Qed.
 Print Assumptions C02_inplace_vector_default_init_refuted.
+
+(* to_floating_point (on which strtod / strtof / strtold / atof / stof / stod / stold are built), as repaired by
+   b99fc94: for EVERY view inside its allocation — empty, not null-terminated, flush against the end of the allocation —
+   the scan reads only characters of the view (the model's reads are checked: UB OutOfBounds outside the view),
+   returns the specified (error, end) and the end pointer stays inside [data(), data() + size()].  The accumulated
+   floating-point value is outside the model. *)
+Theorem C02_to_floating_point_reads_inside : forall v, C08.Core.view_ok v ->
+  C02.ModelFp.tfp_scan v = Ok (C02.ModelFp.tfp_spec (C08.Core.vchars v)) /\
+  0 <= snd (C02.ModelFp.tfp_spec (C08.Core.vchars v)) <= C08.Model.vlen v.
+Proof. intros v H. split; [exact (C02.ProofsFp.tfp_scan_correct v H)|exact (C02.ProofsFp.tfp_end_in_view v H)]. Qed.
+Print Assumptions C02_to_floating_point_reads_inside.
+
+(* the loop as it was before the fix (bounded by a null character only) reads outside the view: "12" inside "1234" *)
+Theorem C02_to_floating_point_prefix_refuted :
+  let v := C08.Model.mkview [49; 50; 51; 52] 0 2 in
+  C08.Core.view_ok v /\ C02.ModelFp.tfp_scan_prefix v = UB OutOfBounds /\ C02.ModelFp.tfp_scan v = Ok (0, 2).
+Proof. exact C02.ProofsFp.tfp_prefix_reads_past_view. Qed.
+Print Assumptions C02_to_floating_point_prefix_refuted.
 
 Example C02_nonvacuous :
   length all_objs = 23%nat /\ In Variant all_objs /\ Variant <> InplaceVectorTrivial /\ Variant <> InplaceVectorNonTrivial /\
